@@ -53,20 +53,30 @@ def _flaky_workers():
     return {"f": w}
 
 
-WORKERS = {"retry": _flaky_workers}
-DATA = {"chain": {"x": 1}, "wait": {"x": 1}, "par": {"x": 1}, "map": {"items": [{"i": 0}, {"i": 1}]}, "parnext": {"x": 1}, "retry": {"x": 1}}
+# a Task whose failure is caught, then a Choice on the caught error, then a Wait: the caught Error Output and the
+# route taken must survive the crash
+SCN["catch"] = ({"StartAt": "T", "States": {
+    "T": scn.task("f", ResultPath="$.t", Next="Z", Catch=[{"ErrorEquals": ["States.ALL"], "ResultPath": "$.err", "Next": "C"}]),
+    "C": {"Type": "Choice", "Choices": [{"Variable": "$.err.Error", "StringEquals": "Boom", "Next": "W"}], "Default": "Z"},
+    "W": {"Type": "Wait", "Seconds": 2, "Next": "R"},
+    # (the Cause text quotes a history event id, and the in-memory history does not survive the crash: only the error
+    #  name is carried into the output)
+    "R": {"Type": "Pass", "Parameters": {"x.$": "$.x", "caught.$": "$.err.Error", "r": "recovered"}, "End": True},
+    "Z": {"Type": "Pass", "End": True}}}, ["f"])
+WORKERS = {"retry": _flaky_workers, "catch": lambda: {"f": (lambda req: {"errorType": "Boom", "errorMessage": "m"})}}
+DATA = {"chain": {"x": 1}, "wait": {"x": 1}, "par": {"x": 1}, "map": {"items": [{"i": 0}, {"i": 1}]}, "parnext": {"x": 1}, "retry": {"x": 1}, "catch": {"x": 1}}
 # The volatile-join-results known finding applies only where a result cannot be recomputed from the
 # redelivered (held) branch event: Task-produced results, completed MaxConcurrency batches, End:true joins
 # (events acknowledged before the terminal record).  Pass-only branches joined by a state with Next recover.
-JOIN_LOSS_POSSIBLE = {"chain": False, "wait": False, "par": True, "map": True, "parnext": False, "retry": False}
+JOIN_LOSS_POSSIBLE = {"chain": False, "wait": False, "par": True, "map": True, "parnext": False, "retry": False, "catch": False}
 
 
-def run_with_crash(name, mode, crash_at, picks, second=None):
+def run_with_crash(name, mode, crash_at, picks, second=None, store="simple"):
     """mode 0: no crash; 1: kill between scheduling steps (before step crash_at);
     2: crash inside a handler after broker operation number crash_at."""
     asl, wq = SCN[name]
     sim.reset()
-    dur = sim.Durable()
+    dur = sim.Durable(store)
     arn = dur.add_machine(asl)
     inst = sim.Instance(dur)
     workers = WORKERS[name]() if name in WORKERS else {q: (lambda req: {"ok": req}) for q in wq}
@@ -141,9 +151,9 @@ def baseline(name):
     return (terms[0]["status"], terms[0].get("output")), len(run.requests), sim.BROKER.ops, run.steps
 
 
-def verdict(name, mode, crash_at, picks, second=None):
+def verdict(name, mode, crash_at, picks, second=None, store="simple"):
     (bstatus, boutput), breq, bops, bsteps = BASE[name]
-    run, terms, ncrash = run_with_crash(name, mode, crash_at, picks, second)
+    run, terms, ncrash = run_with_crash(name, mode, crash_at, picks, second, store)
     tag = "[join-state-lost] " if (run.join_state_lost and JOIN_LOSS_POSSIBLE[name]) else ""
     for r in TOLERATED:
         if tag and r.search(tag):
@@ -225,12 +235,44 @@ def _mk(name, tiers):
     globals()[twice.__name__] = twice
 
 
+def _mk_redis(name, tiers):
+    """The same crash points with the execution records and history kept in the Redis-backed stores: they survive
+    the crash (the restarted engine finds the record of the execution it is resuming)."""
+    (_, _), _, bops, bsteps = BASE[name]
+
+    @condition(timeout={"quick": 300, "thorough": 1200}, tiers=tiers, functions=scn.ENGINE_FUNCS + ["RedisDictStore / RedisListStore (records and history that survive the crash)"],
+               bounds={"quick": {"OPS": bops + 1, "STEPS": bsteps + 1}, "thorough": {"OPS": bops + 1, "STEPS": bsteps + 1}})
+    def between(k: int, c0: int, c1: int, c2: int, c3: int) -> str:
+        """
+        requires: 0 <= k <= @STEPS@
+        ensures: _ == ""
+        """
+        return verdict(name, 1, k, [c0, c1, c2, c3, 0, 0, 0, 0, 0, 0, 0, 0], store="redis")
+    between.__name__ = between.__qualname__ = name + "_redis_between_handlers"
+    globals()[between.__name__] = between
+
+    @condition(timeout={"quick": 300, "thorough": 1200}, tiers=tiers, functions=scn.ENGINE_FUNCS + ["RedisDictStore / RedisListStore (records and history that survive the crash)"],
+               bounds={"quick": {"OPS": bops + 1, "STEPS": bsteps + 1}, "thorough": {"OPS": bops + 1, "STEPS": bsteps + 1}})
+    def inside(k: int, c0: int, c1: int) -> str:
+        """
+        requires: 1 <= k <= @OPS@
+        ensures: _ == ""
+        """
+        return verdict(name, 2, k, [c0, c1, 0, 0, 0, 0, 0, 0, 0, 0, 0, 0], store="redis")
+    inside.__name__ = inside.__qualname__ = name + "_redis_inside_handler"
+    globals()[inside.__name__] = inside
+
+
 _mk("chain", ("quick", "thorough"))
 _mk("wait", ("quick", "thorough"))
 _mk("par", ("quick", "thorough"))
 _mk("map", ("thorough",))
 _mk("parnext", ("quick", "thorough"))
 _mk("retry", ("quick", "thorough"))
+_mk("catch", ("quick", "thorough"))
+_mk_redis("chain", ("quick", "thorough"))
+_mk_redis("retry", ("quick", "thorough"))
+_mk_redis("parnext", ("thorough",))
 
 
 # ---------------------------------------------------------------------------
